@@ -201,6 +201,36 @@ pub fn strategy() -> BoxedStrategy<Case> {
     gen::fmt_and(|fi| gen::narsese(gen::TermOpts::main(fi)))
 }
 
+/// terms nested 100..=600 levels deep with one constructor, or compounds with 100..=400 composite
+/// components (the property quantifies over any depth and any arity)
+pub fn very_deep() -> BoxedStrategy<Case> {
+    gen::fmt_and(|fi| {
+        let o = gen::TermOpts { deep_max: 600, ..gen::TermOpts::main(fi) };
+        let non_atoms: Vec<Kind> = ALL_KINDS.iter().copied().filter(|k| !k.is_atom()).collect();
+        let small = gen::atom(gen::TermOpts { placeholders: false, ..o });
+        let multi: Vec<Kind> = ALL_KINDS.iter().copied().filter(|k| k.is_multi()).collect();
+        (proptest::sample::select(non_atoms), 100usize..=600, small.clone(), small, any::<u16>(), gen::punct(), any::<bool>(), proptest::option::weighted(0.3, (proptest::sample::select(multi), 100usize..=400)))
+            .prop_map(|(k, depth, base, side, frac, p, as_sentence, wide)| {
+                let mut cur = base;
+                if let Some((wk, n)) = wide {
+                    // very WIDE instead: n composite components (distinct names so sets keep them all)
+                    let kids: Vec<D> = (0..n).map(|i| D::node(Inh, vec![D::word(&format!("s{i}")), side.clone()])).collect();
+                    cur = if wk.is_image() { D::image(wk, gen::idx_of(frac, n), kids) } else { D::node(wk, kids) };
+                } else {
+                for _ in 0..depth {
+                    cur = gen::wrap_chain(k, cur, side.clone(), frac);
+                }
+                }
+                if as_sentence {
+                    ND::Sentence(SD { term: cur, punct: p, stamp: St::Eternal, truth: vec![] })
+                } else {
+                    ND::Term(cur)
+                }
+            })
+            .boxed()
+    })
+}
+
 pub fn streams() -> Vec<Box<dyn AnyStream>> {
     vec![
         Box::new(Stream::<Case> {
@@ -208,6 +238,13 @@ pub fn streams() -> Vec<Box<dyn AnyStream>> {
             quick: 0,
             thorough: 0,
             source: Source::Enum(Box::new(|_| Box::new(small_scope().into_iter()))),
+            check: Box::new(check),
+        }),
+        Box::new(Stream::<Case> {
+            name: "very-deep",
+            quick: 150,
+            thorough: 6_000,
+            source: Source::Gen(Box::new(very_deep)),
             check: Box::new(check),
         }),
         Box::new(Stream::<Case> {
